@@ -41,6 +41,30 @@ def neg(a):
   return arith("*", a, -1.0)
 
 
+def patch_engine():
+  """Local work-around for an engine regression (wsym/core.py Interp.lookup, 'uninitialised locals'): for a vector / struct
+  local first assigned under a non-trivial guard, lookup() may return a NEW object ite(defined, value, undef); an in-place
+  component store (`force[0] -= x`, `v[i] = y`) then mutates that temporary and is lost.  The patch writes the wrapped value
+  back to the environment (same meaning: arbitrary where undefined) so that in-place stores hit the variable."""
+  if getattr(core.Interp, "_c24_lookup_patch", False):
+    return
+  orig = core.Interp.lookup
+
+  def lookup(self, fr, name):
+    v = orig(self, fr, name)
+    defg = getattr(fr, "defg", None)
+    if defg is not None and name in fr.env and name in defg and v is not fr.env[name] and isinstance(v, (Vec, core.StructVal)):
+      fr.env[name] = v
+      defg.pop(name, None)
+    return v
+
+  core.Interp.lookup = lookup
+  core.Interp._c24_lookup_patch = True
+
+
+patch_engine()
+
+
 # ------------------------------------------------------------------------------------------------ reference (MuJoCo)
 
 
@@ -454,6 +478,21 @@ def real_eval(arglists):
   return [(float(r[0]), int(round(float(r[1]))), float(r[2])) for r in out.numpy()]
 
 
+def mvalf(model, x):
+  """model value as float (kh.mval overflows on rationals with huge numerators / denominators)"""
+  from fractions import Fraction
+
+  if not is_sym(x):
+    return float(x)
+  v = model.eval(x, model_completion=True)
+  if z3.is_rational_value(v):
+    return float(Fraction(v.numerator_as_long(), v.denominator_as_long()))
+  if z3.is_algebraic_value(v):
+    a = v.approx(20)
+    return float(Fraction(a.numerator_as_long(), a.denominator_as_long()))
+  return float(kh.mval(model, x))
+
+
 def write_replay(pid, unit, name, payload):
   d = os.path.join(report.VERIF, "replays", pid)
   os.makedirs(d, exist_ok=True)
@@ -461,3 +500,47 @@ def write_replay(pid, unit, name, payload):
   with open(path, "w") as fh:
     json.dump(dict(payload, property=pid, unit=unit, query=name), fh, default=str)
   return path
+
+
+def sparse_layout_pre(kt, U, compact, target):
+  """documented layout invariants of the sparse Jacobian for the row (w, e) of a K-mode thread `kt` (used instead of assuming
+  the thread's accesses in bounds, so that a negative / foreign-cell index is a counterexample, not an excluded execution):
+  all per-world arrays have nworld rows; row arrays have njmax columns; 0 <= rowadr, rownnz, rowadr + rownnz <= nnz capacity;
+  column indices in [0, nv); compact: dof_cdof[w, col] in [-1, ncdof) where ncdof = width of `target` (the dof-space array)."""
+  A = kt.args
+  w, e = kt.tid[0], kt.tid[1]
+  nworld = A["nefc_in"].cell.shape[0]
+  out = [w >= 0, cmp("<", w, nworld), e >= 0]
+  for lab, v in A.items():
+    if isinstance(v, core.ArrRef) and v.cell.ndim >= 1 and lab != "nefc_in":
+      out.append(cmp("==", v.cell.shape[0], nworld))
+  njmax = A["efc_J_rownnz_in"].cell.shape[1]
+  for lab in ("efc_J_rowadr_in", "efc_aref_in", "ctx_Jaref_out", "efc_force_in"):
+    if lab in A:
+      out.append(cmp("==", A[lab].cell.shape[1], njmax))
+  out += [cmp("<=", kt.pre("nefc_in", w), njmax)]
+  nnz, adr = kt.pre("efc_J_rownnz_in", w, e), kt.pre("efc_J_rowadr_in", w, e)
+  cap = A["efc_J_in"].cell.shape[2]
+  out += [nnz >= 0, adr >= 0, cmp("<=", adr + nnz, cap), cmp("==", A["efc_J_colind_in"].cell.shape[2], cap), cmp(">=", A["efc_J_in"].cell.shape[1], 1), cmp(">=", A["efc_J_colind_in"].cell.shape[1], 1)]
+  width = A[target].cell.shape[1]
+  nv = A["dof_cdof_in"].cell.shape[1] if compact else width
+  for i in range(U):
+    col = kt.pre("efc_J_colind_in", w, 0, adr + i)
+    ok = And(col >= 0, cmp("<", col, nv))
+    if compact:
+      cc = kt.pre("dof_cdof_in", w, col)
+      ok = And(ok, cc >= -1, cmp("<", cc, width))
+    out.append(Implies(cmp("<", i, nnz), ok))
+  return out
+
+
+def prove_inrange(ctx, sess, kt, names, replay_fn, guard=True, what=""):
+  """every access of the thread stays inside [0, dim) under the session's preconditions (Warp would wrap a negative index)"""
+  seen = {}
+  for ob in kt.it.obl:
+    if ob.kind != "bounds":
+      continue
+    key = (ob.where, ob.info)
+    seen[key] = seen.get(key, 0) + 1
+    nm = f"inrange/{ob.where.split(':')[-1]}/{ob.info[1]}[{ob.info[2]}]" + (f"#{seen[key]}" if seen[key] > 1 else "")
+    ctx.prove(sess, nm, ob.strict, And(ob.guard, guard), names=names, replay=replay_fn, desc=f"{what}: index outside [0, dim) at {ob.where} ({ob.info[1]} dim {ob.info[2]}): wrapped / foreign-cell access")
